@@ -401,6 +401,48 @@ def h_from_points(npts, align, pad_mode):
         prove("pts:aligned_y", And(Or(ry.start % align == 0, ry.start == ny), Or(ry.stop % align == 0, ry.stop == ny, ry.stop == 0)))
 
 
+def h_boundary(pps):
+    """roi_boundary: 4*(pps-1) points, all on the perimeter of the roi rectangle, corners included,
+    in ring order starting at the top-left corner"""
+    roi = roi_mod()
+    y0, x0 = Int("y0", 0), Int("x0", 0)
+    h, w = Int("h", 0), Int("w", 0)
+    r = (slice(y0, y0 + h), slice(x0, x0 + w))
+    pts = roi.roi_boundary(r, pps)
+    pl = pts.tolist() if hasattr(pts, "tolist") else list(pts)
+    prove("count", len(pl) == 4 * (pps - 1))
+    X0, X1, Y0, Y1 = x0, x0 + w, y0, y0 + h
+    if symx.concrete_mode():
+        # float32 rounding of the boundary points: compare with the float32 images of the edges
+        import numpy as np
+
+        f32 = lambda v: F(float(np.float32(v)))  # noqa: E731
+        X0, X1, Y0, Y1 = f32(X0), f32(X1), f32(Y0), f32(Y1)
+    for k, (px, py) in enumerate(pl):
+        px, py = ex(px), ex(py)
+        prove(f"pt{k}_inside_closed_rectangle", And(X0 <= px, px <= X1, Y0 <= py, py <= Y1))
+        prove(f"pt{k}_on_perimeter", Or(px == X0, px == X1, py == Y0, py == Y1))
+    prove("starts_at_top_left", And(ex(pl[0][0]) == X0, ex(pl[0][1]) == Y0))
+    corners = [(X1, Y0), (X1, Y1), (X0, Y1)]
+    for ci, (cx, cy) in enumerate(corners):
+        k = (ci + 1) * (pps - 1)
+        prove(f"corner{ci + 1}_at_index_{k}", And(ex(pl[k][0]) == cx, ex(pl[k][1]) == cy))
+
+
+def h_window():
+    """w_[roi]: rasterio window tuples ((row_start, row_stop), (col_start, col_stop))"""
+    roi = roi_mod()
+    a, b, c = Int("a", 0), Int("b", 0), Int("c", 0)
+    win = roi.w_[slice(a, b), slice(None, c)]
+    prove("window", And(win[0][0] == a, win[0][1] == b, win[1][0] == 0, win[1][1] == c))
+    prove("none_passthrough", roi.w_[None] is None)
+    try:
+        roi.w_[(slice(a, b),)]
+    except ValueError:
+        return
+    prove("needs_2d", False)
+
+
 class _MaskedPoints:
     """Nx2 points where row k is finite iff fin[k] (a symbolic flag): presents to roi_from_points
     exactly the numpy operations it uses (ndim/shape, isfinite mask, row filtering)."""
@@ -542,6 +584,11 @@ OBLIGATIONS = [
        descr="scaled_down_roi then scaled_up_roi contains the original and exceeds it by < scale; scaled_down_shape",
        functions=("odc.geo.roi.scaled_down_roi", "odc.geo.roi.scaled_up_roi", "odc.geo.roi.scaled_down_shape", "odc.geo.math.align_up"),
        bounds="scale from grid; slices unbounded", setup=setup),
+    Ob("N8_boundary", h_boundary, tiered([dict(pps=2), dict(pps=5)], [dict(pps=p) for p in (2, 3, 5, 16)]),
+       descr="roi_boundary: 4(p-1) points on the perimeter of the region, corners included, ring order from the top-left",
+       functions=("odc.geo.roi.roi_boundary", "odc.geo.roi.polygon_path", "odc.geo.math.edge_index"), bounds="region origin and size symbolic >= 0; points per side from grid",
+       stubs=("NumpyModel (linspace, fancy index, vstack)",), setup=setup),
+    Ob("N8_window", h_window, fixed(), descr="w_[roi] window tuples", functions=("odc.geo.roi.WindowFromSlice.__getitem__",), setup=setup),
     Ob("X_crosshair_twins", None, tiered([], [dict(per_condition_timeout=20)]), custom=_xh_custom, custom_replay=_xh_replay,
        descr="second engine (thorough tier): CrossHair 0.0.110 on contract twins of the integer kernels (align_down/up, slice_intersect3, roi_intersect, roi_normalise, roi_pad, scaled_down/up_roi); 'Confirmed over all paths' recorded, 'Not confirmed' ignored, a counterexample replayed",
        functions=("odc.geo.roi.slice_intersect3", "odc.geo.roi.roi_intersect", "odc.geo.roi.roi_pad", "odc.geo.roi.scaled_down_roi", "odc.geo.math.align_up"), bounds="CrossHair's own path exploration, 20 s per condition"),
